@@ -297,6 +297,66 @@ def stage_mci_lr(work, tier, seed):
 
 
 
+LEXAMB_TERMS = [("str", "a"), ("str", "aa"), ("str", "ab"), ("str", "b"), ("re", "a+"), ("re", "[ab]"), ("re", "ab?"),
+                ("str", "ba"), ("re", "b+"), ("str", "aba")]
+LEXAMB_SHAPES = ["S: X+;\nX: %s;", "S: X S | X;\nX: %s;", "S: S X | X;\nX: %s;", "S: X*;\nX: %s;",
+                 "S: A B | B A | A;\nA: %s;\nB: %s;", "S: X X | X X X | X;\nX: %s;"]
+
+
+def lexamb_grammars(seed, n):
+    out = []
+    for i in range(n):
+        rng = random.Random("lexamb-%d-%d" % (seed, i))
+        if i == 0:
+            terms = [("str", "a"), ("str", "aa")]
+            shape = LEXAMB_SHAPES[0]
+        else:
+            terms = rng.sample(LEXAMB_TERMS, rng.randint(2, 3))
+            shape = rng.choice(LEXAMB_SHAPES)
+        names = ["L%d" % k for k in range(len(terms))]
+        if shape.count("%s") == 2:
+            k = max(1, len(names) // 2)
+            body = shape % (" | ".join(names[:k]), " | ".join(names[k:] or names[:1]))
+        else:
+            body = shape % " | ".join(names)
+        text = body + "\nterminals\n" + "".join(
+            "%s: %s;\n" % (nm, ("'%s'" % t) if k == "str" else ("/%s/" % t)) for nm, (k, t) in zip(names, terms))
+        out.append(("lexamb:%d:%d" % (seed, i), text, terms))
+    return out
+
+
+def lattice_of(terms, text):
+    """Token lattice of `text`: nodes are byte offsets after white space, an edge
+    [i, t, j] for every terminal t (1-based index) matching at i and ending (after
+    white space) at j.  Python's re is the independent matcher."""
+    import re
+
+    def skip(p):
+        while p < len(text) and text[p].isspace():
+            p += 1
+        return p
+    start = skip(0)
+    edges = []
+    seen = set()
+    todo = [start]
+    while todo:
+        p = todo.pop()
+        if p in seen or p >= len(text):
+            continue
+        seen.add(p)
+        for ti, (k, t) in enumerate(terms, 1):
+            if k == "str":
+                l = len(t) if text.startswith(t, p) else 0
+            else:
+                m = re.compile(t).match(text, p)
+                l = m.end() - p if m else 0
+            if l > 0:
+                q = skip(p + l)
+                edges.append([p, ti, q])
+                todo.append(q)
+    return {"start": start, "end": len(text), "edges": edges}
+
+
 def stage_glr(work, tier, seed):
     """Real GlrParser (LALR_RN table) and, for the same inputs, the real LR
     parser (LALR_PAGER table); forests validated by TraceGLR."""
@@ -320,12 +380,32 @@ def stage_glr(work, tier, seed):
             iid += 1
             text_in, lex = G.render_input(g, toks, rng, lead=rng.choice(["", "", " ", "\n"]),
                                           trail=rng.choice(["", "", " ", "\n"]))
-            ins.append({"iid": iid, "text": text_in, "lex": lex, "partial": False, "meta": {"kind": kind}})
+            ins.append({"iid": iid, "text": text_in, "lex": lex, "partial": False,
+                        "meta": {"kind": kind, "lat": False}})
             inputs["%s#%d" % (cid, iid)] = [text_in, lex]
         gtext[cid] = text
         cases.append({"id": cid, "grammar": text, "cfg": {"algo": "lr", "tt": "pager"},
                       "glr": {"algo": "glr"}, "max_trees": 150,
                       "meta": {"nodis": bool(nod), "plain": "meta" not in tags}, "inputs": ins})
+    # lexically ambiguous grammars, all lexical strategies off: the oracle works on the
+    # token lattice the harness computes with its own matcher
+    for gid, text, terms in lexamb_grammars(seed, 10 if tier == "quick" else 60):
+        cid = "%s|rn" % gid
+        rng = random.Random("%s-%d" % (cid, seed))
+        ins = []
+        for iid in range(1, (7 if tier == "quick" else 14)):
+            n = rng.randint(1, 6)
+            alpha = sorted({c for k, t in terms for c in t if c in "ab"}) or ["a"]
+            word = "".join(rng.choice(alpha) for _ in range(n))
+            if rng.random() < 0.4 and n > 2:
+                k = rng.randint(1, n - 1)
+                word = word[:k] + " " + word[k:]
+            ins.append({"iid": iid, "text": word, "lex": [], "lat": lattice_of(terms, word), "partial": False,
+                        "meta": {"kind": "lexamb", "lat": True}})
+            inputs["%s#%d" % (cid, iid)] = [word, []]
+        gtext[cid] = text
+        cases.append({"id": cid, "grammar": text, "cfg": {"algo": "glr", "ms": False, "lm": False, "go": False},
+                      "max_trees": 150, "meta": {"nodis": False, "plain": True}, "inputs": ins})
     pres = run.run_vdrive(work, "glr", cases)
     envs = [{"DUMPS": p + ".dumps.ndjson", "TRACES": p + ".traces.ndjson"} for p in pres
             if os.path.getsize(p + ".traces.ndjson") > 0]
